@@ -411,6 +411,41 @@ def _w_primitive(task):
     elif kind == "Extrusion":
         if abs(float(p.volume) - 3.0) > 1e-9 or abs(float(p.area) - (2 * 2 + 6 * 1.5)) > 1e-9:
             t.violation("Extrusion: analytic volume / area wrong", case, {"volume": float(p.volume), "area": float(p.area)})
+        # every polygon class: non-convex, one hole, two holes; built that way and reached by editing .polygon
+        from shapely.geometry import Polygon
+        from trimesh import primitives
+
+        polys = {
+            "L shape": Polygon([(0, 0), (4, 0), (4, 1), (1, 1), (1, 3), (0, 3)]),
+            "one hole": Polygon([(0, 0), (6, 0), (6, 4), (0, 4)], [[(1, 1), (1, 3), (3, 3), (3, 1)]]),
+            "two holes": Polygon([(0, 0), (8, 0), (8, 4), (0, 4)], [[(1, 1), (1, 3), (2, 3), (2, 1)], [(4, 1.5), (4, 2.5), (7, 2.5), (7, 1.5)]]),  # no edge of one hole is collinear with an edge of the other (that is the recorded earcut finding)
+        }
+        for pname, pg in polys.items():
+            for how in ("constructed", "polygon edited"):
+                for h in (1.5, -2.0):
+                    c2 = {"family": "primitive_measures", "kind": kind, "polygon": pname, "how": how, "height": h}
+                    t.evaluations += 1
+                    t.nontrivial_count += 1
+                    try:
+                        if how == "constructed":
+                            q = primitives.Extrusion(polygon=pg, height=h)
+                        else:
+                            q = primitives.Extrusion(polygon=Polygon([(0, 0), (2, 0), (2, 1), (0, 1)]), height=h)
+                            _ = (q.area, q.volume, len(q.faces))
+                            q.primitive.polygon = pg
+                        per = pg.exterior.length + sum(r.length for r in pg.interiors)
+                        want_a, want_v = 2 * pg.area + per * abs(h), pg.area * abs(h)
+                        qt = np.asarray(q.vertices)[np.asarray(q.faces)]
+                        mesh_a = float(np.linalg.norm(np.cross(qt[:, 1] - qt[:, 0], qt[:, 2] - qt[:, 0]), axis=1).sum() / 2)
+                        mesh_v = float(np.einsum("ij,ij->i", qt[:, 0], np.cross(qt[:, 1], qt[:, 2])).sum() / 6)
+                        got_a, got_v = float(q.area), float(q.volume)
+                    except Exception as e:
+                        t.violation(f"Extrusion [{pname}; {how}] raises {type(e).__name__}", c2, {"exc": repr(e)[:200]})
+                        continue
+                    if abs(got_a - want_a) > 1e-9 * want_a or abs(got_v - want_v) > 1e-9 * want_v:
+                        t.violation(f"Extrusion: analytic volume / area differ from the exact values [{pname}]", c2, {"area": got_a, "want_area": want_a, "volume": got_v, "want_volume": want_v})
+                    elif abs(mesh_a - want_a) > 1e-9 * want_a or abs(mesh_v - want_v) > 1e-9 * want_v:
+                        t.violation(f"Extrusion: the tessellation does not have the exact volume / area [{pname}]", c2, {"mesh_area": mesh_a, "want_area": want_a, "mesh_volume": mesh_v, "want_volume": want_v})
     else:
         smooth = {"Sphere": 4 / 3 * np.pi * 1.5**3, "Cylinder": np.pi * 3.0, "Capsule": np.pi * 0.25 * 2.0 + 4 / 3 * np.pi * 0.125}[kind]
         if abs(float(p.volume) - smooth) > 1e-9 * smooth and abs(float(p.volume) - mv) > 1e-9 * mv:
